@@ -36,7 +36,7 @@ def simCmd (sess : EmitSession) (ws : List String) : Option String :=
       | some ft =>
         let params := ft.params.map vtOfW
         let result := ft.results.head?.map vtOfW
-        let loc0 := argv ++ ls.map zeroV
+        let loc0 : Store := { locals := argv ++ ls.map zeroV }
         let nres := ft.results.length
         let src : String :=
           match erunSeq driverNumSem fuel is [] loc0 with
@@ -46,7 +46,7 @@ def simCmd (sess : EmitSession) (ws : List String) : Option String :=
         match compileFunc sess.ctx params ls result is with
         | .error e => some s!"src {src} | tgt err {e}"
         | .ok cf =>
-          let σ0 : MSt := { slots := fun _ => 0, locals := loc0 }
+          let σ0 : MSt := { slots := fun _ => 0, store := loc0 }
           let fin (σ : MSt) : String := match result with
             | some rt => "val " ++ showVal (σ.get ⟨rt, 0⟩)
             | none => "val "
@@ -70,12 +70,13 @@ def sessModule (sess : EmitSession) : MModule :=
       | some (_, ls, is) => ⟨ti, ls, is⟩
       | none => ⟨ti, [], [.unreachable]⟩
     table := sess.table
-    host := fun _ _ => .ub .unboundVar }
+    globalTypes := sess.ctx.globalTypes
+    host := fun _ _ _ => .ub .unboundVar }
 
-def showOutW (o : Out (Option Spec.Val)) : String :=
+def showOutW (o : Out (Option Spec.Val × GS)) : String :=
   match o with
-  | .val (some v) => "val " ++ showVal v
-  | .val none => "val "
+  | .val (some v, _) => "val " ++ showVal v
+  | .val (none, _) => "val "
   | .trap t => s!"trap {t.code}"
   | .ub k => "ub " ++ k.name
   | .oof => "oof"
@@ -106,7 +107,8 @@ def simCmd2 (sess : EmitSession) (ws : List String) : Option (EmitSession × Str
       | .error e => some (sess, "err compile " ++ e)
       | .ok cfs =>
         let r := m.run driverNumSem cfs d
-        some (sess, s!"src {showOutW (r.1 fi argv)} | tgt {showOutW (r.2 fi argv)}")
+        let g0 : GS := { globals := sess.ctx.globalTypes.map zeroV }
+        some (sess, s!"src {showOutW (r.1 fi argv g0)} | tgt {showOutW (r.2 fi argv g0)}")
     | _, _, _ => some (sess, "err parse")
   | _ => none
 
